@@ -185,8 +185,8 @@ type cyclicCase struct {
 	Kinds    []string  `json:"kinds"`
 	Siblings []int     `json:"siblings"`
 	V        model.Val `json:"value"`
-	Op       string    `json:"op"`    // compare rank
-	Other    string    `json:"other"` // self copy
+	Op       string    `json:"op"`            // compare rank
+	Other    string    `json:"other"`         // self copy
 	Via      string    `json:"via,omitempty"` // "association": the cycle passes through a standalone Association held by the outermost collection
 }
 
@@ -360,6 +360,8 @@ func TestC08(t *testing.T) {
 	defer r.End()
 	core.DFS(r, core.Check[leafCase]{Name: "leaf-pools", Gen: genLeafCase, Exec: execLeaf("C08"), NoJournal: true}, 0)
 	core.DFS(r, core.Check[mixedCase]{Name: "mixed-primitives", Gen: genMixed, Exec: execMixed("C08"), NoJournal: true}, 0)
+	core.DFS(r, core.Check[faceCase]{Name: "values-and-pointers", Gen: genFaces, Exec: execFaces("C08"), NoJournal: true}, 0)
+	core.DFS(r, core.Check[twinCase]{Name: "same-named-types", Gen: genTwins, Exec: execTwins("C08"), NoJournal: true}, 0)
 	core.Rapid(r, core.Check[mapKeysCase]{Name: "map-keys", Gen: genMapKeys, Exec: execMapKeys("C08")}, r.N(1500, 15000))
 	core.Rapid(r, core.Check[poolCase]{Name: "composite-pools", Gen: genPool(true), Exec: execPool("C08")}, r.N(1500, 15000))
 	core.Rapid(r, core.Check[typedPoolCase]{Name: "typed-composites", Gen: genTypedPool, Exec: execTypedPool("C08")}, r.N(800, 8000))
